@@ -88,6 +88,16 @@ pub fn gen_c18(rng: &mut Rng, thorough: bool, release: bool) -> Vec<Tagged> {
         out.push(("gen-seed-multiple-of-modulus".into(), Case::RandGen { wrap, seed, n: 4, lo: -1.0, hi: 1.0 }));
         out.push(("shuffle-seed-multiple-of-modulus".into(), Case::Shuffle { wrap, seed, n: 6 }));
     }
+    // long shuffles and many draws (beyond 2^10 and 2^16 elements)
+    // (the model's shuffle is quadratic in the length: 10^4 is the practical limit of the tie)
+    for (k, &n) in [1023usize, 1024, 1025, 2049, 4097, 10001].iter().enumerate() {
+        if n > 3000 && !thorough {
+            continue;
+        }
+        let seed = 12345 + k as u64 * 7919;
+        out.push(("shuffle-long".into(), Case::Shuffle { wrap, seed, n }));
+        out.push(("gen-many-draws".into(), Case::RandGen { wrap, seed, n: n.min(5000), lo: -2.0, hi: 3.0 }));
+    }
     // seeds far above the modulus: the first multiplication overflows u64
     for k in 0..(if thorough { 40 } else { 8 }) {
         let seed = match k % 4 {
@@ -492,6 +502,19 @@ pub fn gen_c06(rng: &mut Rng, thorough: bool) -> Vec<Tagged> {
             }
         }
         out.push((format!("{:?}-rank-mismatch", o), Case::Obj(o, None, t1(rng.vec(4, 2)), t3(1, 2, 2, &rng.vec(4, 2)))));
+        // long vectors / large tensors (beyond 2^8, 2^10, 2^16 elements): every component still enters
+        // the loss and receives its gradient
+        let longs: &[(usize, usize, usize)] = if thorough { &[(1, 1, 257), (1, 1, 1100), (3, 20, 20), (1, 1, 66000), (3, 150, 150)] } else { &[(1, 1, 300), (1, 1, 1100), (3, 37, 37)] };
+        for (k, &(c, h, w)) in longs.iter().enumerate() {
+            let n = c * h * w;
+            let stream = k % 3;
+            let (pv, tv) = obj_inputs(rng, o, n, stream);
+            let cl = if k % 2 == 0 { None } else { rand_clamp(rng) };
+            out.push((format!("{:?}-long-flat", o), Case::Obj(o, cl, t1(pv.clone()), t1(tv.clone()))));
+            if c > 1 {
+                out.push((format!("{:?}-long-3d", o), Case::Obj(o, cl, t3(c, h, w, &pv), t3(c, h, w, &tv))));
+            }
+        }
     }
     out
 }
@@ -680,6 +703,17 @@ pub fn gen_c03(rng: &mut Rng, thorough: bool) -> Vec<Tagged> {
     // optimizer kind; histories whose gradient is exactly zero on the first steps (state stays 0) and
     // whose first call already has a step number > 1; huge step numbers
     for kind in 0..5 {
+        // beyond 2^10 and 2^16 elements
+        for (ri, shape) in [Shape::Single(1100), Shape::Double(1030, 2), Shape::Triple(3, 37, 37), Shape::Single(66000)].iter().enumerate() {
+            if ri == 3 && !thorough {
+                continue;
+            }
+            let opt = rand_opt(rng, kind);
+            let n = shape_numel(shape);
+            let w = tensor_of_shape(shape, &rng.vec(n, 2));
+            let steps: Vec<(usize, usize, bool, i32, Tensor)> = [1, 2].iter().map(|s| (0usize, 0usize, false, *s, tensor_of_shape(shape, &rng.vec(n, 2)))).collect();
+            out.push((format!("{}-huge-rank{}", opt.kind(), ri + 1), Case::OptHistory { opt, vals: vec![vec![vec![w]]], steps }));
+        }
         for (ri, shape) in [Shape::Single(257), Shape::Double(130, 3), Shape::Triple(33, 2, 3)].iter().enumerate() {
             let opt = rand_opt(rng, kind);
             let n = shape_numel(shape);
